@@ -20,19 +20,41 @@ import (
 	"verifharness/tlaval"
 )
 
-type concDoc struct {
-	text string
-}
-
+// documents: containers and scalars (a concurrently readable node may be a raw scalar too)
 var concDocs = []string{
 	`{"a":"x","b":[1,2,3],"c":{"d":1}}`,
 	` { "a" : "hello", "b" : [ 1, 2, 3 ], "c" : { "d" : 42 } } `,
 	`{"a":"x","b":[1,2,3],"c":{"d":1},"k1":1,"k2":2,"k3":3,"k4":4,"k5":5,"k6":6,"k7":7,"k8":8,"k9":9,"k10":10,"k11":11,"k12":12,"k13":13,"k14":14,"k15":15,"k16":16}`,
+	`"a fairly long string value, long enough to tear: \u00e9 \n end"`,
+	`1234567.25`,
+	`true`,
+}
+
+// canonJSON compares texts as JSON values: Raw and MarshalJSON may return the source text or a
+// re-encoding of the parsed value (escape spelling and blanks may differ), both describe the same value.
+func canonJSON(b []byte) string {
+	var v interface{}
+	d := json.NewDecoder(strings.NewReader(string(b)))
+	d.UseNumber()
+	if err := d.Decode(&v); err != nil {
+		return "BADJSON:" + string(b)
+	}
+	out, _ := json.Marshal(v)
+	return string(out)
+}
+
+func docKind(text string) string {
+	t := strings.TrimSpace(text)
+	if strings.HasPrefix(t, "{") {
+		return "obj"
+	}
+	return "scalar"
 }
 
 // read operations of the three model classes; each returns a printable result
 type concOp struct {
 	class string // get | raw | marshal
+	kind  string // obj | scalar | any : which documents it applies to
 	name  string
 	f     func(n *ast.Node) string
 }
@@ -46,38 +68,43 @@ func show(v interface{}, err error) string {
 }
 
 var concOps = []concOp{
-	{"get", "Get(a).String", func(n *ast.Node) string { return show(n.Get("a").String()) }},
-	{"get", "Get(b).Index(1).Int64", func(n *ast.Node) string { return show(n.Get("b").Index(1).Int64()) }},
-	{"get", "GetByPath(c,d).Float64", func(n *ast.Node) string { return show(n.GetByPath("c", "d").Float64()) }},
-	{"get", "Index(0).Raw", func(n *ast.Node) string { return show(n.Index(0).Raw()) }},
-	{"get", "Interface", func(n *ast.Node) string { return show(n.Interface()) }},
-	{"get", "Map", func(n *ast.Node) string { return show(n.Map()) }},
-	{"get", "Get(b).Array", func(n *ast.Node) string { return show(n.Get("b").Array()) }},
-	{"get", "Get(zz).Exists", func(n *ast.Node) string { return fmt.Sprint(n.Get("zz").Exists()) }},
-	{"get", "Get(c).MarshalJSON", func(n *ast.Node) string {
+	{"get", "obj", "Get(a).String", func(n *ast.Node) string { return show(n.Get("a").String()) }},
+	{"get", "obj", "Get(b).Index(1).Int64", func(n *ast.Node) string { return show(n.Get("b").Index(1).Int64()) }},
+	{"get", "obj", "GetByPath(c,d).Float64", func(n *ast.Node) string { return show(n.GetByPath("c", "d").Float64()) }},
+	{"get", "obj", "Index(0).Raw", func(n *ast.Node) string { return show(n.Index(0).Raw()) }},
+	{"get", "any", "Interface", func(n *ast.Node) string { return show(n.Interface()) }},
+	{"get", "obj", "Map", func(n *ast.Node) string { return show(n.Map()) }},
+	{"get", "obj", "Get(b).Array", func(n *ast.Node) string { return show(n.Get("b").Array()) }},
+	{"get", "obj", "Get(zz).Exists", func(n *ast.Node) string { return fmt.Sprint(n.Get("zz").Exists()) }},
+	{"get", "obj", "Get(c).MarshalJSON", func(n *ast.Node) string {
 		b, err := n.Get("c").MarshalJSON()
 		return show(compact(b), err)
 	}},
-	{"raw", "Raw", func(n *ast.Node) string {
+	{"get", "scalar", "String", func(n *ast.Node) string { return show(n.String()) }},
+	{"get", "scalar", "Float64", func(n *ast.Node) string { return show(n.Float64()) }},
+	{"get", "scalar", "Number", func(n *ast.Node) string { return show(n.Number()) }},
+	{"get", "scalar", "Bool", func(n *ast.Node) string { return show(n.Bool()) }},
+	{"get", "scalar", "InterfaceUseNumber", func(n *ast.Node) string { return show(n.InterfaceUseNumber()) }},
+	{"raw", "any", "Raw", func(n *ast.Node) string {
 		s, err := n.Raw()
 		if err != nil {
 			return "ERR:" + errDetail(err)
 		}
-		return compact([]byte(s))
+		return canonJSON([]byte(s))
 	}},
-	{"marshal", "MarshalJSON", func(n *ast.Node) string {
+	{"marshal", "any", "MarshalJSON", func(n *ast.Node) string {
 		b, err := n.MarshalJSON()
 		if err != nil {
 			return "ERR:" + errDetail(err)
 		}
-		return compact(b)
+		return canonJSON(b)
 	}},
 }
 
-func opsOfClass(c string) []concOp {
+func opsOfClass(c string, kind string) []concOp {
 	var out []concOp
 	for _, o := range concOps {
-		if o.class == c {
+		if o.class == c && (o.kind == "any" || o.kind == kind) {
 			out = append(out, o)
 		}
 	}
@@ -175,7 +202,7 @@ func astconcMain(args []string) int {
 		// choose concrete operations
 		ops := make([]concOp, len(classes))
 		for i, c := range classes {
-			cands := opsOfClass(tlaval.Str(c))
+			cands := opsOfClass(tlaval.Str(c), docKind(docText))
 			ops[i] = cands[(pick+i*5)%len(cands)]
 		}
 		// sequential oracle: each operation alone on a fresh node
@@ -260,6 +287,13 @@ func astconcMain(args []string) int {
 		if err != nil {
 			continue
 		}
+		var roundOps []concOp
+		for _, o := range concOps {
+			if o.kind == "any" || o.kind == docKind(docText) {
+				roundOps = append(roundOps, o)
+			}
+		}
+		concOps := roundOps
 		want := make([]string, len(concOps))
 		for i, o := range concOps {
 			nd, _ := newConcNode(round, docText)
